@@ -171,9 +171,10 @@ func ruleR09_2(w *World, r *Report) {
 	}
 	for _, st := range apps {
 		s3, _, loc3, _, n3 := pathsFlags(st)
-		good := n3 > 0 && s3 == n3 && loc3 == 0 && strings.Contains(canonName(st.Val), ".txCtx.opBuffer")
+		// the whole buffer (the transaction marker included: a replay must consume the same identifiers) is recorded
+		good := n3 > 0 && s3 == n3 && loc3 == 0 && canonName(st.Val) == "append($0.rollbackOps,$0.txCtx.opBuffer)"
 		r.Check(good, owner+"/record for rollback", u.Pos(st.Pos()), "recorded on success for local and remote operations alike",
-			"the operations committed since the rollback snapshot are recorded only on some paths (e.g. only for local operations): a later rollback restores the snapshot and loses the others")
+			"the operations committed since the rollback snapshot are recorded only on some paths (e.g. only for local operations), or not the whole transaction buffer is recorded (recorded: "+canonName(st.Val)+"): a later rollback restores the snapshot and loses the others, or replays them under shifted identifiers")
 	}
 	// SetNumOfOps(len(opBuffer)) before delivery on withOp paths
 	arg := canonName(setNum.Common().Args[len(setNum.Common().Args)-1])
@@ -322,6 +323,25 @@ func ruleR09_4(w *World, r *Report) {
 	if n == 0 {
 		r.Lost("ReceiveRemoteModelOperations: slicing of a transaction unit")
 	}
+	// a unit that does not fit (announces more than was received, or less than one) is an error for the caller:
+	// the client reports it, the server's rebuild must not store a snapshot for a version it has not fully applied
+	forEachInstr(fn, func(in ssa.Instruction) {
+		ret, ok := in.(*ssa.Return)
+		if !ok || ret.Block().Comment == "recover" || returnsNonNilLast(ret) {
+			return
+		}
+		paths, _ := pathLinCmps(fn, ret, txAbs)
+		for _, p := range paths {
+			for _, l := range p {
+				switch l {
+				case "-I+LEN-N < 0", "-I+LEN-N+1 <= 0", "+N-1 < 0", "+N <= 0":
+					r.Bad("ReceiveRemoteModelOperations/misfit unit is an error", u.Pos(ret.Pos()), "under "+l+" (the announced length does not fit what was received) the function returns without an error: the caller takes the batch for fully applied (the server's rebuild stores a snapshot under a version whose operations are missing; the client advances past the unit)")
+					return
+				}
+			}
+		}
+	})
+	r.OK("ReceiveRemoteModelOperations/misfit unit is an error", u.Pos(fn.Pos()), "every exit under a misfit literal carries an error")
 }
 
 // R09.5 announced count checked before the unit is applied
